@@ -211,7 +211,9 @@ void harness(void)
 {
     static obj_t o, before;
     HARNESS_BEGIN();
+#ifndef OB_REJECT_SYM
     SYM_U8A(sym_key);
+#endif
 #ifdef OB_REJECT_SYM
     SYM_VAL(sym_len);
     ASSUME(sym_len < BLK || sym_len > MAXLEN);
@@ -220,9 +222,26 @@ void harness(void)
     unsigned len = KEYLEN;
 #endif
     prepare(&o);
-    memcpy(&before, &o, sizeof o);
+    before = o;
     CHECK(call_set_key(&o, sym_key, len) == 0, "a key length outside the documented range is rejected with 0");
+#ifdef OB_REJECT_SYM
+    /* compared field by field so that this query can run with a small unwinding bound (the symbolic length makes
+       CBMC unwind the library's length-driven loops up to the bound although their guards are infeasible) */
+    { const KEY_T *a = sched_of(&o), *b = sched_of(&before);
+      CHECK(a->rounds == b->rounds, "a rejected key length leaves the round count untouched");
+      for (int r = 0; r < MAXR; r++) CHECK(a->schedule[r].row[0] == b->schedule[r].row[0] && a->schedule[r].row[1] == b->schedule[r].row[1], "a rejected key length leaves the existing schedule untouched");
+#if defined(API_TWEAKED)
+      for (int i = 0; i < BLK; i++) CHECK(o.tk.tweak[i] == before.tk.tweak[i], "a rejected key length leaves the stored tweak untouched");
+#elif defined(API_CTR) || defined(API_CTR_TWEAKED)
+      for (int i = 0; i < BLK; i++) CHECK(o.ctx.kt.tweak[i] == before.ctx.kt.tweak[i] && o.ctx.counter[i] == before.ctx.counter[i] && o.ctx.ecounter[i] == before.ctx.ecounter[i], "a rejected key length leaves tweak, counter and buffered keystream untouched");
+      CHECK(o.ctx.offset == before.ctx.offset && o.h.vtable == before.h.vtable && o.h.ctx == before.h.ctx, "a rejected key length leaves offset and handle untouched");
+#elif defined(API_PAR)
+      CHECK(o.h.vtable == before.h.vtable && o.h.ctx == before.h.ctx && o.h.parallel_size == before.h.parallel_size, "a rejected key length leaves the handle untouched");
+#endif
+    }
+#else
     CHECK_BYTES_EQ(&o, &before, sizeof o, "a rejected key length leaves the existing schedule and object untouched");
+#endif
     WITNESS_POINT();
 }
 #else
